@@ -86,6 +86,13 @@ def roundtrip(x, p):
                 x.assume(And(s[k] != 34, s[k] != 92, s[k] != 10,
                              s[k] != 13))
             code = [b'x="' + s + b'"' + nl]
+        elif kind == 'longline':
+            # one very long line: a data string of 22 000 glyphs (66 000
+            # bytes of UTF-8 in the file), then the symbolic bytes
+            for k in range(n):
+                x.assume(And(s[k] != 34, s[k] != 92, s[k] != 10,
+                             s[k] != 13))
+            code = [b'd="' + b'\x80\x8e' * 11000 + s + b'"' + nl, b'y=2' + nl]
         elif kind == 'dunder':
             # a code line that begins like a section header but is not one
             t = x.bytes('tail', 1)
@@ -222,6 +229,7 @@ HARNESSES = [
                    dict(Q, code='dunder', ncode=1, maxver=8),
                    dict(Q, code='comment', ncode=1, crlf=True,
                         final_nl=False, maxver=8),
+                   dict(Q, code='longline', ncode=1, maxver=8),
                    dict(Q, code='comment', ncode=1, eol='cr', maxver=8),
                    dict(Q, code='ident', ncode=1, eol='cr', maxver=8)],
             thorough=[dict(Q, code=c, ncode=2, maxver=8, _budget=1800)
